@@ -1,0 +1,9 @@
+//go:build verif
+
+package dhcpv6
+
+// Contracts for the deductive verification in /verif (build tag "verif"). This file adds declarations only.
+
+// GetInnerMessage walks the relay chain and modifies nothing (the default for pointer-receiver methods would allow
+// writes to the receiver).
+//@ contract (*RelayMessage).GetInnerMessage
